@@ -484,7 +484,8 @@ class C11(Base):
     @staticmethod
     def oracle(case, ops):
         out = []
-        for op, r, before, after in snaps_with_prev(upto_first_exn(ops)):
+        # every step of every call keeps the ID structure, so the snapshots after a throwing call count too
+        for op, r, before, after in snaps_with_prev(ops):
             ms = oracle_idshape(after)
             for m in ms:
                 out.append(('id-structure', 'after `%s`: %s' % (op, m)))
@@ -533,13 +534,16 @@ class C14(Base):
     @staticmethod
     def oracle(case, ops):
         out = []
-        for op, r, before, after in snaps_with_prev(upto_first_exn(ops)):
+        # gated on the state before the call being well-formed, not on earlier calls having succeeded
+        for op, r, before, after in snaps_with_prev(ops):
             t = op.split()
-            if t[0] != 'reassign' or before is None:
+            if t[0] != 'reassign' or before is None or t[1] not in before.docs:
                 continue
-            if oracle_wf(before) or oracle_sync(before) or oracle_uniq_reserved(before, t[1]):
+            if oracle_wf(before) or oracle_sync(before) or oracle_acyclic(before) or oracle_idshape(before):
                 continue
             if r != 'ok':
+                if not oracle_uniq(before):
+                    out.append(('reassign-throws', '`%s` threw %s on a well-formed document' % (op, r)))
                 continue
             d = t[1]
             for m in oracle_uniq(after):
@@ -548,7 +552,9 @@ class C14(Base):
                 out.append(('reassign-id-structure', '`%s`: %s' % (op, m)))
             # frame: everything but IDs and block IDs
             for h, e in after.els.items():
-                b = before.els[h]
+                b = before.els.get(h)
+                if b is None:
+                    continue
                 if (e['parent'], e['refs'], e['td'], e['extra']) != (b['parent'], b['refs'], b['td'], b['extra']):
                     out.append(('reassign-frame', '`%s` changed %s beyond its ID' % (op, h)))
                 if is_reserved(e['kind'], b['id']) and e['id'] != b['id']:
@@ -595,9 +601,10 @@ class C14(Base):
                         out.append(('reassign-track', '`%s`: track format %s got %s, expected %s' % (op, tr, after.els[tr]['id'], (e['id'][0], e['id'][1], n))))
                     n += 1
         # idempotence: two consecutive successful reassignIds
-        seq = snaps_with_prev(upto_first_exn(ops))
+        seq = snaps_with_prev(ops)
         for (op1, r1, b1, a1), (op2, r2, b2, a2) in zip(seq, seq[1:]):
-            if op1.startswith('reassign') and op2 == op1 and r1 == 'ok' and r2 == 'ok' and a1.key() != a2.key():
+            if op1.startswith('reassign') and op2 == op1 and r1 == 'ok' and r2 == 'ok' and b2 is not None \
+                    and b2.key() == a1.key() and a1.key() != a2.key():
                 if not (oracle_wf(a1) or oracle_sync(a1)):
                     out.append(('reassign-not-idempotent', 'the second `%s` changed the document' % op2))
         return out
@@ -668,7 +675,9 @@ class C18(Base):
                 continue
             if oracle_acyclic(before):
                 continue
-            body = r[len('ok routes ['):-1]
+            body, _, eq = r[len('ok routes ['):].rpartition('] eq=')
+            if eq != '1':
+                out.append(('route-equality', '`%s`: a route rebuilt from the same elements does not compare equal or has a different hash' % op))
             got = [x.split('>') for x in body.split('|')] if body else []
             want = spec_routes(before, t[1])
             if sorted(got) != sorted(want):
@@ -693,6 +702,98 @@ def block_rows(e):
     return rows
 
 
+def frac_str(fr, style):
+    """A Fraction of seconds as 'ns:' (truncated to whole nanoseconds) or 'fr:n/d'."""
+    if style == 'ns':
+        return 'ns:%d' % (fr.numerator * 10 ** 9 // fr.denominator)
+    if style == 'fr':
+        return 'fr:%d/%d' % (fr.numerator, fr.denominator)
+    d = style          # a given denominator
+    return 'fr:%d/%d' % (fr.numerator * d // fr.denominator, d)
+
+
+def scene_c16(rng):
+    """A structured, mostly valid scene: programmes -> contents -> (nested) objects -> (nested) packs -> channel
+    formats with block timelines, decimal and fractional times, durations that are absent / right in another
+    representation / a truncated decimal of the right fraction / wrong."""
+    L = ['newdoc d0', 'newdoc d1']
+    n = [0]
+
+    def fresh():
+        n[0] += 1
+        return 'h%d' % n[0]
+    unit = rng.choice([Fraction(1, 3), Fraction(1, 3), Fraction(1, 48000) * 16000, Fraction(1001, 30000) * 10, Fraction(1, 2), Fraction(1)])
+    total_units = rng.choice([6, 9, 12, 30])
+    total = unit * total_units
+    chans = []
+    for _ in range(rng.randrange(1, 4)):
+        c = fresh()
+        td = rng.choice([1, 2, 3, 3, 4, 5])
+        L.append('new %s chan %d' % (c, td))
+        nb = rng.randrange(1, 6)
+        cuts = sorted(rng.sample(range(1, total_units), min(nb - 1, total_units - 1))) if nb > 1 else []
+        starts = [0] + cuts
+        style = rng.choice(['ns', 'fr', 'fr', 48000 * unit.denominator])
+        for i, st in enumerate(starts):
+            nxt = (starts[i + 1] if i + 1 < len(starts) else total_units)
+            right = unit * (nxt - st)
+            r = rng.random()
+            if r < 0.35:
+                du = '-'
+            elif r < 0.55:
+                du = frac_str(right, 'fr')
+            elif r < 0.8:
+                du = frac_str(right, 'ns')      # a decimal that may be a truncation of the right fraction
+            else:
+                du = frac_str(right + unit, 'fr')
+            rt = '-' if st == 0 and rng.random() < 0.5 else frac_str(unit * st, style)
+            L.append('block %s %d 0 0 0 %s %s' % (c, td, rt, du))
+        chans.append(c)
+    packs = []
+    for _ in range(rng.randrange(1, 3)):
+        p = fresh()
+        L.append('new %s pack 3' % p)
+        for c in rng.sample(chans, rng.randrange(1, len(chans) + 1)):
+            L.append('addref packchan %s %s' % (p, c))
+        if packs and rng.random() < 0.3:
+            L.append('addref packpack %s %s' % (p, rng.choice(packs)))
+        packs.append(p)
+    objs = []
+    for _ in range(rng.randrange(1, 4)):
+        o = fresh()
+        L.append('new %s obj' % o)
+        L.append('addref objpack %s %s' % (o, rng.choice(packs)))
+        if objs and rng.random() < 0.3:
+            L.append('addref objobj %s %s' % (o, rng.choice(objs)))
+        r = rng.random()
+        if r < 0.25:
+            L.append('settimes %s - %s' % (o, frac_str(total, rng.choice(['ns', 'fr']))))
+        elif r < 0.35:
+            L.append('settimes %s - %s' % (o, frac_str(total - unit, 'fr')))
+        objs.append(o)
+    progs = []
+    for _ in range(rng.choice([1, 1, 2, 2, 3])):
+        pr = fresh()
+        co = fresh()
+        L += ['new %s prog' % pr, 'new %s cont' % co, 'addref progcont %s %s' % (pr, co)]
+        for o in rng.sample(objs, rng.randrange(1, len(objs) + 1)):
+            L.append('addref contobj %s %s' % (co, o))
+        r = rng.random()
+        if r < 0.5:
+            L.append('settimes %s - %s' % (pr, frac_str(total, rng.choice(['ns', 'fr']))))
+        elif r < 0.65:
+            L.append('settimes %s %s %s' % (pr, frac_str(unit, 'fr'), frac_str(total + unit, 'fr')))
+        elif r < 0.8:
+            L.append('settimes %s - %s' % (pr, frac_str(total + unit, 'fr')))
+        progs.append(pr)
+    for pr in progs:
+        L.append('add d0 %s' % pr)
+    r = rng.random()
+    flen = '-' if r < 0.4 else frac_str(total, rng.choice(['ns', 'fr'])) if r < 0.85 else frac_str(total + unit, 'fr')
+    L += ['snapshot', 'fixdur d0 %s' % flen, 'snapshot', 'fixdur d0 %s' % flen, 'snapshot', 'end']
+    return L
+
+
 class C16(Base):
     rule = ('scenes with programmes (with/without end), contents, nested objects with and without durations, shared and '
             'unshared channel formats of all five types with 1-6 blocks, decimal and fractional times, with and without a '
@@ -704,8 +805,8 @@ class C16(Base):
 
     @classmethod
     def gen(cls, ctx):
-        n = cls.ncases_quick if ctx.quick() else cls.ncases_thorough
-        out = []
+        n = (cls.ncases_quick if ctx.quick() else cls.ncases_thorough) // 2
+        out = [scene_c16(ctx.rng) for _ in range(n)]
         for _ in range(n):
             sizes = dict(prog=ctx.rng.randrange(1, 3), cont=ctx.rng.randrange(1, 3), obj=ctx.rng.randrange(1, 4),
                          pack=ctx.rng.randrange(1, 3), chan=ctx.rng.randrange(1, 4))
@@ -783,7 +884,9 @@ class C16(Base):
                     if rows_b[i][0] != rt:
                         out.append(('durations-frame', '`%s` changed an rtime of %s' % (op, c)))
             for h, e in after.els.items():
-                b = before.els[h]
+                b = before.els.get(h)
+                if b is None:
+                    continue
                 ex_a = {k: v for k, v in e['extra'].items() if k != 'times'}
                 ex_b = {k: v for k, v in b['extra'].items() if k != 'times'}
                 if (e['parent'], e['id'], e['refs'], e['td'], e['blocks'], ex_a) != (b['parent'], b['id'], b['refs'], b['td'], b['blocks'], ex_b):
